@@ -11,6 +11,7 @@ import (
 )
 
 var errNegativeSeek = errors.New("unixfs file: seek to a negative position")
+var errNotAFileNode = errors.New("unixfs file: node does not have a list of links")
 
 // NewUnixFSFile attempts to construct an ipld node from the base protobuf node representing the
 // root of a unixfs File.
@@ -25,6 +26,11 @@ func NewUnixFSFile(ctx context.Context, substrate ipld.Node, lsys *ipld.LinkSyst
 	links, err := substrate.LookupByString("Links")
 	if err != nil {
 		return nil, err
+	}
+	if links.Kind() != ipld.Kind_List {
+		// not the links of a protobuf node: e.g. an already reified directory
+		// that happens to have an entry named "Links"
+		return nil, errNotAFileNode
 	}
 	if links.Length() == 0 {
 		// no children.
